@@ -1672,6 +1672,11 @@ pub fn gen_tail(rng: &mut Rng, reencode: bool) -> Vec<Tail> {
     if !reencode {
         // one encoding, or (1 in 5) a second one after a first successful / failed emission: the
         // structural oracles then also judge the last encoding against the model
+        if rng.chance(1, 8) {
+            // the side-effect report is an encoding pass of its own: what is encoded after it must
+            // still satisfy the model
+            return vec![Tail::PullSideEffects, Tail::Encode];
+        }
         if rng.chance(1, 5) {
             let first = match rng.below(20) {
                 0..=11 => Tail::Encode,
@@ -1687,7 +1692,8 @@ pub fn gen_tail(rng: &mut Rng, reencode: bool) -> Vec<Tail> {
     let n = rng.range(2, 4);
     let mut v = vec![];
     for _ in 0..n {
-        v.push(match rng.below(10) {
+        v.push(match rng.below(11) {
+            10 => Tail::PullSideEffects,
             0..=4 => Tail::Encode,
             5..=6 => Tail::EmitOk,
             7 => Tail::EmitFail(FailKind::Enospc),
